@@ -4,62 +4,1046 @@ package ecdsa
 
 import (
 	"bytes"
+	nativeEcdsa "crypto/ecdsa"
+	"crypto/elliptic"
+	crand "crypto/rand"
 	"crypto/sha256"
+	"errors"
+	"math/big"
 
+	"github.com/bronlabs/bron-crypto/pkg/base/curves"
+	"github.com/bronlabs/bron-crypto/pkg/base/curves/impl/traits"
 	"github.com/bronlabs/bron-crypto/pkg/base/curves/k256"
+	k256Impl "github.com/bronlabs/bron-crypto/pkg/base/curves/k256/impl"
+	"github.com/bronlabs/bron-crypto/pkg/base/nt/cardinal"
+	"github.com/bronlabs/bron-crypto/pkg/signatures"
 )
 
-const verifK256 = "github.com/bronlabs/bron-crypto/pkg/base/curves/k256"
+// E1 harnesses for property C15 (ECDSA part): pkg/signatures/ecdsa, files ecdsa.go
+// (RecoverPublicKey, DigestToScalar), signature.go (NewSignature, Normalise, IsNormalized) and
+// verifier.go (Verifier.Verify), instantiated with secp256k1
+// (k256.Point, k256.BaseFieldElement, k256.Scalar) and SHA-256.
+//
+// What is checked is the CONTROL FLOW and DATA FLOW of those functions: which curve / field routine
+// is called with which operands, in which order the checks are made, and which error / value comes
+// back. 256-bit multiplicative arithmetic is not encodable, so every routine of the k256 wrapper
+// layer that the three files call is replaced by a CONTRACT (engine feature "replacements"):
+//
+//   - scalars (mod n) and base-field elements (mod p) are modelled EXACTLY for the linear
+//     operations (value = four symbolic 64-bit limbs; Neg, Add, reduction of a byte string,
+//     comparison, byte encoding are exact; spec intrinsics verifSpec*Mod4);
+//   - the multiplicative operations (TryInv, FromAffineX, ScalarMul, ScalarBaseMul, point Sub,
+//     AffineX/AffineY, point Equal, crypto/ecdsa.Verify) are UNINTERPRETED FUNCTIONS: the result of
+//     the first call with given operands is an arbitrary fresh value (constrained only by facts
+//     that hold in every prime-order group, see each contract), later calls with equal operands
+//     return the same value (memo tables in ghost state). Points are opaque identifiers.
+//
+// The obligations are stated on RESULTS: the harness recomputes the expected result with the same
+// library routines (under the interpreter: the same contracts, hence the same uninterpreted
+// function symbols; natively: the real routines) and compares. So a counterexample is replayed
+// natively against the real arithmetic, and a deviation of the control / data flow (wrong bit of
+// v, wrong operand) shows up as a natively confirmed VIOLATION. What is NOT checked here: the
+// group-theoretic facts behind the formulas (that r^-1(sR - zG) is the signing key, that (r, n-s)
+// verifies iff (r, s) does): they are about the replaced routines.
+//
+// Contracts: 28 keys in verifReplacements (see the comment on each function) plus 5 guard keys in
+// verifReplacementsGuards that are never entered on the current tree.
 
-type verifSc struct {
-	limbs [4]uint64
+const (
+	verifK  = "github.com/bronlabs/bron-crypto/pkg/base/curves/k256"
+	verifIM = verifK + "/impl"
+	verifT  = "github.com/bronlabs/bron-crypto/pkg/base/curves/impl/traits"
+)
+
+type (
+	verifScT = traits.PrimeFieldElementTrait[*k256Impl.Fq, k256Impl.Fq, *k256.Scalar, k256.Scalar]
+	verifBeT = traits.PrimeFieldElementTrait[*k256Impl.Fp, k256Impl.Fp, *k256.BaseFieldElement, k256.BaseFieldElement]
+	verifSfT = traits.PrimeFieldTrait[*k256Impl.Fq, *k256.Scalar, k256.Scalar]
+	verifBfT = traits.PrimeFieldTrait[*k256Impl.Fp, *k256.BaseFieldElement, k256.BaseFieldElement]
+	verifPtT = traits.PointTrait[*k256Impl.Fp, *k256Impl.Point, k256Impl.Point, *k256.Point, k256.Point]
+
+	verifSuiteT = Suite[*k256.Point, *k256.BaseFieldElement, *k256.Scalar]
+	verifSigT   = Signature[*k256.Scalar]
+	verifPkT    = PublicKey[*k256.Point, *k256.BaseFieldElement, *k256.Scalar]
+)
+
+// ---- constants (little-endian limbs). n = group order, p = field modulus, verifHalfN = (n-1)/2.
+
+func verifN() [4]uint64 {
+	return [4]uint64{0xBFD25E8CD0364141, 0xBAAEDCE6AF48A03B, 0xFFFFFFFFFFFFFFFE, 0xFFFFFFFFFFFFFFFF}
 }
 
-var verifScalars []verifSc
+func verifP() [4]uint64 {
+	return [4]uint64{0xFFFFFFFEFFFFFC2F, 0xFFFFFFFFFFFFFFFF, 0xFFFFFFFFFFFFFFFF, 0xFFFFFFFFFFFFFFFF}
+}
+
+func verifHalfN() [4]uint64 {
+	return [4]uint64{0xDFE92F46681B20A0, 0x5D576E7357A4501D, 0xFFFFFFFFFFFFFFFF, 0x7FFFFFFFFFFFFFFF}
+}
+
+// verifLimbsBE: the integer with big-endian bytes b (len <= 32).
+func verifLimbsBE(b []byte) (l [4]uint64) {
+	n := len(b)
+	for i := 0; i < n; i++ {
+		l[i/8] |= uint64(b[n-1-i]) << (8 * uint(i%8))
+	}
+	return l
+}
+
+// verifBytesBE: 32 big-endian bytes of l.
+func verifBytesBE(l [4]uint64) []byte {
+	out := make([]byte, 32)
+	for i := 0; i < 32; i++ {
+		out[31-i] = byte(l[i/8] >> (8 * uint(i%8)))
+	}
+	return out
+}
+
+func verifIsZero4(l [4]uint64) bool { return l[0]|l[1]|l[2]|l[3] == 0 }
+
+func verifEq4(a, b [4]uint64) bool {
+	return (a[0]^b[0])|(a[1]^b[1])|(a[2]^b[2])|(a[3]^b[3]) == 0
+}
+
+// verifMod: l mod m (exact; a genuine remainder unless the path condition entails l < m).
+func verifMod(l, m [4]uint64) [4]uint64 { return verifSpecAddMod4(l, [4]uint64{}, m) }
+
+// ---- ghost state (zero at the start of every path; empty in the native twin)
+
+type verifInvEntry struct {
+	arg [4]uint64
+	res *k256.Scalar
+}
+
+type verifXEntry struct {
+	x   [4]uint64
+	ok  bool
+	pts [2]*k256.Point // [even y, odd y]
+}
+
+type verifMulEntry struct {
+	pid uint64
+	s   [4]uint64
+	res *k256.Point
+}
+
+type verifSubEntry struct {
+	a, b uint64
+	res  *k256.Point
+}
+
+type verifEqEntry struct {
+	a, b uint64
+	eq   bool
+}
+
+type verifPtInfo struct {
+	zero   bool
+	hasXY  bool
+	ax, ay *k256.BaseFieldElement
+}
+
+type verifBigEntry struct {
+	p *big.Int
+	l [4]uint64
+}
+
+type verifNvCall struct {
+	x, y, r, s [4]uint64
+	nilCurve   bool
+	digest     [32]byte
+	dlen       int
+	ans        bool
+}
+
+var (
+	verifScalars []([4]uint64) // scalar id-1 -> value (< n)
+	verifBases   []([4]uint64) // base-field element id-1 -> value (< p)
+	verifPoints  []verifPtInfo // point id-1 -> facts
+	verifInvs    []verifInvEntry
+	verifXs      []verifXEntry
+	verifMuls    []verifMulEntry // pid 0 = the generator (ScalarBaseMul)
+	verifSubs    []verifSubEntry
+	verifEqs     []verifEqEntry
+	verifBigs    []verifBigEntry
+	verifNvs     []verifNvCall
+
+	// set by harness (b) from its inputs: the answers of the two oracles
+	verifEqForced, verifEqAnswer bool // point Equal on two different identifiers
+	verifOkForced, verifOkAnswer bool // crypto/ecdsa.Verify (first call / same arguments)
+)
+
+// ---- scalars: exact values
 
 func verifNewScalar(l [4]uint64) *k256.Scalar {
-	verifScalars = append(verifScalars, verifSc{limbs: l})
+	verifScalars = append(verifScalars, l)
 	s := new(k256.Scalar)
 	s.V.SetUint64(uint64(len(verifScalars)))
 	return s
 }
 
-func verifScLimbs(s *k256.Scalar) [4]uint64 {
-	id := s.V.Limbs()[0]
-	return verifScalars[id-1].limbs
-}
-
-func verifScalarIsZero(s *k256.Scalar) bool {
-	l := verifScLimbs(s)
-	return l[0]|l[1]|l[2]|l[3] == 0
-}
-
-func verifNewScalarField() *k256.ScalarField { return &k256.ScalarField{} }
-
-func verifScalarFieldFromBytes(f *k256.ScalarField, b []byte) (*k256.Scalar, error) {
-	var l [4]uint64
-	for i := 0; i < 32; i++ {
-		l[i/8] |= uint64(b[31-i]) << (8 * (i % 8))
+func verifScVal(v *k256Impl.Fq) [4]uint64 {
+	id := v.Limbs()[0]
+	if id == 0 || id > uint64(len(verifScalars)) {
+		panic("harness: scalar that no contract produced")
 	}
-	return verifNewScalar(l), nil
+	return verifScalars[id-1]
+}
+
+// (*Scalar).IsZero: value == 0.
+func verifScIsZero(fe *verifScT) bool { return verifIsZero4(verifScVal(&fe.V)) }
+
+// (*Scalar).Neg: n - value (0 for 0), exact.
+func verifScNeg(fe *verifScT) *k256.Scalar {
+	return verifNewScalar(verifSpecNegMod4(verifScVal(&fe.V), verifN()))
+}
+
+// (*Scalar).Equal: equal values.
+func verifScEqual(fe *verifScT, rhs *k256.Scalar) bool {
+	return verifEq4(verifScVal(&fe.V), verifScVal(&rhs.V))
+}
+
+// (*Scalar).Clone: a new object with the same value.
+func verifScClone(fe *verifScT) *k256.Scalar { return verifNewScalar(verifScVal(&fe.V)) }
+
+// (*Scalar).Bytes: the 32 big-endian bytes of the value.
+func verifScBytes(fe *verifScT) []byte { return verifBytesBE(verifScVal(&fe.V)) }
+
+// (*Scalar).Cardinal: the value as a cardinal (big-endian bytes).
+func verifScCardinal(fe *verifScT) cardinal.Cardinal {
+	return cardinal.Known(verifBytesBE(verifScVal(&fe.V)))
+}
+
+// (*Scalar).TryInv: error iff the value is 0; otherwise an uninterpreted function of the value
+// with a non-zero result.
+func verifScTryInv(fe *verifScT) (*k256.Scalar, error) {
+	l := verifScVal(&fe.V)
+	if verifIsZero4(l) {
+		return nil, curves.ErrFailed.WithMessage("division by zero")
+	}
+	for i := range verifInvs {
+		if verifEq4(verifInvs[i].arg, l) {
+			return verifInvs[i].res, nil
+		}
+	}
+	u := verifU64s(4)
+	r := [4]uint64{u[0], u[1], u[2], u[3]}
+	verifAssume(verifSpecLess4(r, verifN()) && !verifIsZero4(r))
+	res := verifNewScalar(r)
+	verifInvs = append(verifInvs, verifInvEntry{arg: l, res: res})
+	return res, nil
+}
+
+// (*ScalarField).FromWideBytes: more than 64 bytes: error (as the real code); up to 32 bytes: the
+// big-endian integer reduced mod n, exact; 33..64 bytes: not modelled (no caller here).
+func verifSfFromWideBytes(f *verifSfT, b []byte) (*k256.Scalar, error) {
+	if len(b) > 64 {
+		return nil, curves.ErrFailed.WithMessage("cannot set bytes")
+	}
+	if len(b) > 32 {
+		panic("harness: FromWideBytes with more than 32 bytes is not modelled")
+	}
+	return verifNewScalar(verifMod(verifLimbsBE(b), verifN())), nil
+}
+
+// ---- base-field elements: exact values
+
+func verifNewBase(l [4]uint64) *k256.BaseFieldElement {
+	verifBases = append(verifBases, l)
+	e := new(k256.BaseFieldElement)
+	e.V.SetUint64(uint64(len(verifBases)))
+	return e
+}
+
+func verifBeVal(v *k256Impl.Fp) [4]uint64 {
+	id := v.Limbs()[0]
+	if id == 0 || id > uint64(len(verifBases)) {
+		panic("harness: base-field element that no contract produced")
+	}
+	return verifBases[id-1]
+}
+
+// (*BaseField).FromWideBytes: as for scalars, mod p.
+func verifBfFromWideBytes(f *verifBfT, b []byte) (*k256.BaseFieldElement, error) {
+	if len(b) > 64 {
+		return nil, curves.ErrFailed.WithMessage("cannot set bytes")
+	}
+	if len(b) > 32 {
+		panic("harness: FromWideBytes with more than 32 bytes is not modelled")
+	}
+	return verifNewBase(verifMod(verifLimbsBE(b), verifP())), nil
+}
+
+// (*BaseFieldElement).Add: (a + b) mod p, exact.
+func verifBeAdd(fe *verifBeT, e *k256.BaseFieldElement) *k256.BaseFieldElement {
+	return verifNewBase(verifSpecAddMod4(verifBeVal(&fe.V), verifBeVal(&e.V), verifP()))
+}
+
+// (*BaseFieldElement).Bytes / Cardinal: the 32 big-endian bytes of the value.
+func verifBeBytes(fe *verifBeT) []byte { return verifBytesBE(verifBeVal(&fe.V)) }
+
+func verifBeCardinal(fe *verifBeT) cardinal.Cardinal {
+	return cardinal.Known(verifBytesBE(verifBeVal(&fe.V)))
+}
+
+// ---- cardinals and big integers
+//
+// (cardinal.Known).Big: a fresh *big.Int whose value (the cardinal's big-endian bytes) is kept in
+// ghost state; (*big.Int).Cmp compares those values exactly. No other method of a big.Int produced
+// here is called by the code under test (they are handed to crypto/ecdsa.Verify, a contract).
+
+func verifKnownBig(k cardinal.Known) *big.Int {
+	if len(k) > 32 {
+		panic("harness: cardinal wider than 256 bits")
+	}
+	z := new(big.Int)
+	verifBigs = append(verifBigs, verifBigEntry{p: z, l: verifLimbsBE(k)})
+	return z
+}
+
+func verifBigVal(x *big.Int) [4]uint64 {
+	for i := range verifBigs {
+		if verifBigs[i].p == x {
+			return verifBigs[i].l
+		}
+	}
+	panic("harness: big.Int that no contract produced")
+}
+
+func verifBigCmp(x, y *big.Int) int {
+	a, b := verifBigVal(x), verifBigVal(y)
+	return int(verifB2U(verifSpecLess4(b, a))) - int(verifB2U(verifSpecLess4(a, b)))
+}
+
+// ---- structures
+
+func verifNewCurve() *k256.Curve             { return &k256.Curve{} }
+func verifNewScalarField() *k256.ScalarField { return &k256.ScalarField{} }
+func verifNewBaseField() *k256.BaseField     { return &k256.BaseField{} }
+
+// (*Curve).Order: n.
+func verifCurveOrder(c *k256.Curve) cardinal.Cardinal { return cardinal.Known(verifBytesBE(verifN())) }
+
+// (*Curve).ToElliptic: a nil elliptic.Curve (its only consumer, crypto/ecdsa.Verify, is a contract;
+// the contract records that it received the nil curve of THIS contract).
+func verifCurveToElliptic(c *k256.Curve) elliptic.Curve { return nil }
+
+// ---- points: opaque identifiers
+
+func verifNewPoint(zero bool) *k256.Point {
+	verifPoints = append(verifPoints, verifPtInfo{zero: zero})
+	p := new(k256.Point)
+	p.V.X.SetUint64(uint64(len(verifPoints)))
+	return p
+}
+
+func verifPtID(v *k256Impl.Point) uint64 {
+	id := v.X.Limbs()[0]
+	if id == 0 || id > uint64(len(verifPoints)) {
+		panic("harness: point that no contract produced")
+	}
+	return id
+}
+
+// verifPtEq: the equality oracle. Same identifier: equal. Otherwise an arbitrary answer, fixed per
+// unordered pair, consistent with the identity flags (two identities are equal, an identity and a
+// non-identity are not). Harness (b) forces the answer of (*Point).Equal (not of the identity test
+// inside Sub) from its own input, so that the native twin can build the corresponding situation.
+func verifPtEq(a, b uint64, mayForce bool) bool {
+	if a == b {
+		return true
+	}
+	for i := range verifEqs {
+		e := &verifEqs[i]
+		if (e.a == a && e.b == b) || (e.a == b && e.b == a) {
+			return e.eq
+		}
+	}
+	za, zb := verifPoints[a-1].zero, verifPoints[b-1].zero
+	var eq bool
+	if verifEqForced && mayForce {
+		eq = verifEqAnswer
+	} else {
+		eq = verifU8()&1 == 1
+	}
+	verifAssume(verifB2U(za)&verifB2U(zb) <= verifB2U(eq))   // both identity => equal
+	verifAssume(verifB2U(za)^verifB2U(zb) <= 1-verifB2U(eq)) // exactly one identity => different
+	verifEqs = append(verifEqs, verifEqEntry{a: a, b: b, eq: eq})
+	return eq
+}
+
+// (*Point).Equal / IsZero.
+func verifPtEqual(p *verifPtT, rhs *k256.Point) bool {
+	return verifPtEq(verifPtID(&p.V), verifPtID(&rhs.V), true)
+}
+func verifPtIsZero(p *verifPtT) bool { return verifPoints[verifPtID(&p.V)-1].zero }
+
+// (*Curve).FromAffineX(x, odd): whether x is the abscissa of a curve point is an uninterpreted
+// predicate of the VALUE of x; if it is, the two points (even / odd y) are uninterpreted functions
+// of x, different from each other and not the identity. Error value as in the real code.
+func verifCurveFromAffineX(c *k256.Curve, x *k256.BaseFieldElement, odd bool) (*k256.Point, error) {
+	l := verifBeVal(&x.V)
+	var e *verifXEntry
+	for i := range verifXs {
+		if verifEq4(verifXs[i].x, l) {
+			e = &verifXs[i]
+			break
+		}
+	}
+	if e == nil {
+		verifXs = append(verifXs, verifXEntry{x: l, ok: verifU8()&1 == 1})
+		e = &verifXs[len(verifXs)-1]
+	}
+	if !e.ok {
+		return nil, curves.ErrInvalidCoordinates.WithMessage("x")
+	}
+	k := 0
+	if odd {
+		k = 1
+	}
+	if e.pts[k] == nil {
+		e.pts[k] = verifNewPoint(false)
+		if o := e.pts[1-k]; o != nil { // P and -P differ (no point of order 2)
+			verifEqs = append(verifEqs, verifEqEntry{a: verifPtID(&o.V), b: verifPtID(&e.pts[k].V), eq: false})
+		}
+	}
+	return e.pts[k], nil
+}
+
+func verifMul(pid uint64, pzero bool, s [4]uint64) *k256.Point {
+	for i := range verifMuls {
+		if verifMuls[i].pid == pid && verifEq4(verifMuls[i].s, s) {
+			return verifMuls[i].res
+		}
+	}
+	// prime order: s*P is the identity iff P is the identity or s = 0 (s < n)
+	res := verifNewPoint(pzero || verifIsZero4(s))
+	verifMuls = append(verifMuls, verifMulEntry{pid: pid, s: s, res: res})
+	return res
+}
+
+// (*Point).ScalarMul(s): uninterpreted function of (point, value of s).
+func verifPtScalarMul(p *k256.Point, s *k256.Scalar) *k256.Point {
+	id := verifPtID(&p.V)
+	return verifMul(id, verifPoints[id-1].zero, verifScVal(&s.V))
+}
+
+// (*Curve).ScalarBaseMul(s): uninterpreted function of the value of s (nil scalar: panic, as real).
+func verifCurveScalarBaseMul(c *k256.Curve, s *k256.Scalar) *k256.Point {
+	if c == nil {
+		return nil
+	}
+	if s == nil {
+		panic("scalar is nil")
+	}
+	return verifMul(0, false, verifScVal(&s.V))
+}
+
+// (*Point).Sub(q): uninterpreted function of (p, q); the identity iff p equals q (oracle).
+func verifPtSub(p *verifPtT, q *k256.Point) *k256.Point {
+	a, b := verifPtID(&p.V), verifPtID(&q.V)
+	for i := range verifSubs {
+		if verifSubs[i].a == a && verifSubs[i].b == b {
+			return verifSubs[i].res
+		}
+	}
+	res := verifNewPoint(verifPtEq(a, b, false))
+	verifSubs = append(verifSubs, verifSubEntry{a: a, b: b, res: res})
+	return res
+}
+
+func verifPtXY(p *k256.Point) (*verifPtInfo, error) {
+	info := &verifPoints[verifPtID(&p.V)-1]
+	if info.zero {
+		return nil, curves.ErrFailed.WithMessage("point is identity")
+	}
+	if !info.hasXY {
+		u := verifU64s(8)
+		x := [4]uint64{u[0], u[1], u[2], u[3]}
+		y := [4]uint64{u[4], u[5], u[6], u[7]}
+		verifAssume(verifSpecLess4(x, verifP()) && verifSpecLess4(y, verifP()))
+		info.ax, info.ay, info.hasXY = verifNewBase(x), verifNewBase(y), true
+	}
+	return info, nil
+}
+
+// (*Point).AffineX / AffineY: error for the identity (as real); otherwise uninterpreted functions
+// of the point (arbitrary values < p).
+func verifPtAffineX(p *k256.Point) (*k256.BaseFieldElement, error) {
+	info, err := verifPtXY(p)
+	if err != nil {
+		return nil, err
+	}
+	return info.ax, nil
+}
+
+func verifPtAffineY(p *k256.Point) (*k256.BaseFieldElement, error) {
+	info, err := verifPtXY(p)
+	if err != nil {
+		return nil, err
+	}
+	return info.ay, nil
+}
+
+// crypto/ecdsa.Verify(pub, digest, r, s): an uninterpreted predicate of (pub.X, pub.Y, digest, r, s);
+// harness (b) forces the answer for the first argument tuple from its own input.
+func verifNativeVerify(pub *nativeEcdsa.PublicKey, hash []byte, r, s *big.Int) bool {
+	var c verifNvCall
+	c.x, c.y, c.r, c.s = verifBigVal(pub.X), verifBigVal(pub.Y), verifBigVal(r), verifBigVal(s)
+	c.nilCurve = pub.Curve == nil
+	c.dlen = len(hash)
+	if len(hash) != 32 {
+		panic("harness: digest length not modelled")
+	}
+	copy(c.digest[:], hash)
+	for i := range verifNvs {
+		o := &verifNvs[i]
+		if verifEq4(o.x, c.x) && verifEq4(o.y, c.y) && verifEq4(o.r, c.r) && verifEq4(o.s, c.s) && o.digest == c.digest {
+			c.ans = o.ans
+			verifNvs = append(verifNvs, c)
+			return c.ans
+		}
+	}
+	if verifOkForced && len(verifNvs) == 0 {
+		c.ans = verifOkAnswer
+	} else {
+		c.ans = verifU8()&1 == 1
+	}
+	verifNvs = append(verifNvs, c)
+	return c.ans
 }
 
 func verifReplacements() map[string]any {
+	const sc = "(*" + verifT + ".PrimeFieldElementTrait[*" + verifIM + ".Fq, " + verifIM + ".Fq, *" + verifK + ".Scalar, " + verifK + ".Scalar])."
+	const be = "(*" + verifT + ".PrimeFieldElementTrait[*" + verifIM + ".Fp, " + verifIM + ".Fp, *" + verifK + ".BaseFieldElement, " + verifK + ".BaseFieldElement])."
+	const sf = "(*" + verifT + ".PrimeFieldTrait[*" + verifIM + ".Fq, *" + verifK + ".Scalar, " + verifK + ".Scalar])."
+	const bf = "(*" + verifT + ".PrimeFieldTrait[*" + verifIM + ".Fp, *" + verifK + ".BaseFieldElement, " + verifK + ".BaseFieldElement])."
+	const pt = "(*" + verifT + ".PointTrait)."
 	return map[string]any{
-		"(*" + verifK256 + ".Scalar).IsZero":         verifScalarIsZero,
-		verifK256 + ".NewScalarField":                verifNewScalarField,
-		"(*" + verifK256 + ".ScalarField).FromBytes": verifScalarFieldFromBytes,
+		sc + "IsZero":   verifScIsZero,
+		sc + "Neg":      verifScNeg,
+		sc + "Equal":    verifScEqual,
+		sc + "Clone":    verifScClone,
+		sc + "Bytes":    verifScBytes,
+		sc + "Cardinal": verifScCardinal,
+		sc + "TryInv":   verifScTryInv,
+
+		sf + "FromWideBytes": verifSfFromWideBytes,
+		bf + "FromWideBytes": verifBfFromWideBytes,
+
+		be + "Add":      verifBeAdd,
+		be + "Bytes":    verifBeBytes,
+		be + "Cardinal": verifBeCardinal,
+
+		"(github.com/bronlabs/bron-crypto/pkg/base/nt/cardinal.Known).Big": verifKnownBig,
+		"(*math/big.Int).Cmp": verifBigCmp,
+
+		verifK + ".NewCurve":       verifNewCurve,
+		verifK + ".NewScalarField": verifNewScalarField,
+		verifK + ".NewBaseField":   verifNewBaseField,
+
+		"(*" + verifK + ".Curve).Order":         verifCurveOrder,
+		"(*" + verifK + ".Curve).ToElliptic":    verifCurveToElliptic,
+		"(*" + verifK + ".Curve).FromAffineX":   verifCurveFromAffineX,
+		"(*" + verifK + ".Curve).ScalarBaseMul": verifCurveScalarBaseMul,
+
+		"(*" + verifK + ".Point).ScalarMul": verifPtScalarMul,
+		"(*" + verifK + ".Point).AffineX":   verifPtAffineX,
+		"(*" + verifK + ".Point).AffineY":   verifPtAffineY,
+		pt + "Sub":                          verifPtSub,
+		pt + "Equal":                        verifPtEqual,
+		pt + "IsZero":                       verifPtIsZero,
+
+		"crypto/ecdsa.Verify": verifNativeVerify,
 	}
 }
 
-func H_ecdsarec_probe() {
+// ---- guards: operations that the code under test does NOT call on the current tree. They are
+// modelled (exactly, resp. as uninterpreted functions) only so that a changed library that starts
+// calling them does not silently compute on the opaque identifiers.
+
+type verifAddEntry struct {
+	a, b uint64
+	res  *k256.Point
+}
+
+var (
+	verifAdds  []verifAddEntry
+	verifNegs  []verifAddEntry // b unused
+	verifSMuls []verifInvEntry2
+)
+
+type verifInvEntry2 struct {
+	a, b [4]uint64
+	res  *k256.Scalar
+}
+
+func verifPtAdd(p *verifPtT, q *k256.Point) *k256.Point {
+	a, b := verifPtID(&p.V), verifPtID(&q.V)
+	for i := range verifAdds {
+		if (verifAdds[i].a == a && verifAdds[i].b == b) || (verifAdds[i].a == b && verifAdds[i].b == a) {
+			return verifAdds[i].res
+		}
+	}
+	res := verifNewPoint(verifU8()&1 == 1)
+	verifAdds = append(verifAdds, verifAddEntry{a: a, b: b, res: res})
+	return res
+}
+
+func verifPtNeg(p *verifPtT) *k256.Point {
+	a := verifPtID(&p.V)
+	for i := range verifNegs {
+		if verifNegs[i].a == a {
+			return verifNegs[i].res
+		}
+	}
+	res := verifNewPoint(verifPoints[a-1].zero)
+	verifNegs = append(verifNegs, verifAddEntry{a: a, res: res})
+	return res
+}
+
+func verifScAdd(fe *verifScT, e *k256.Scalar) *k256.Scalar {
+	return verifNewScalar(verifSpecAddMod4(verifScVal(&fe.V), verifScVal(&e.V), verifN()))
+}
+
+func verifScSub(fe *verifScT, e *k256.Scalar) *k256.Scalar {
+	return verifNewScalar(verifSpecSubMod4(verifScVal(&fe.V), verifScVal(&e.V), verifN()))
+}
+
+func verifScMul(fe *verifScT, e *k256.Scalar) *k256.Scalar {
+	a, b := verifScVal(&fe.V), verifScVal(&e.V)
+	for i := range verifSMuls {
+		m := &verifSMuls[i]
+		if (verifEq4(m.a, a) && verifEq4(m.b, b)) || (verifEq4(m.a, b) && verifEq4(m.b, a)) {
+			return m.res
+		}
+	}
+	u := verifU64s(4)
+	r := [4]uint64{u[0], u[1], u[2], u[3]}
+	verifAssume(verifSpecLess4(r, verifN()))
+	verifAssume(verifIsZero4(r) == (verifIsZero4(a) || verifIsZero4(b))) // a field has no zero divisors
+	res := verifNewScalar(r)
+	verifSMuls = append(verifSMuls, verifInvEntry2{a: a, b: b, res: res})
+	return res
+}
+
+func verifReplacementsGuards() map[string]any {
+	const sc = "(*" + verifT + ".PrimeFieldElementTrait[*" + verifIM + ".Fq, " + verifIM + ".Fq, *" + verifK + ".Scalar, " + verifK + ".Scalar])."
+	const pt = "(*" + verifT + ".PointTrait)."
+	return map[string]any{
+		pt + "Add": verifPtAdd,
+		pt + "Neg": verifPtNeg,
+		sc + "Add": verifScAdd,
+		sc + "Sub": verifScSub,
+		sc + "Mul": verifScMul,
+	}
+}
+
+// ---- helpers shared by the harnesses (run by BOTH twins)
+
+func verifSuite() *verifSuiteT {
+	suite, err := NewSuite(k256.NewCurve(), sha256.New)
+	if err != nil {
+		panic(err)
+	}
+	return suite
+}
+
+// verifInScalar: 32 input bytes, assumed canonical (< n), as a scalar.
+func verifInScalar(b []byte) *k256.Scalar {
+	verifAssume(verifSpecLess4(verifLimbsBE(b), verifN()))
+	s, err := k256.NewScalarField().FromWideBytes(b)
+	if err != nil {
+		panic(err)
+	}
+	return s
+}
+
+func verifAllZero(b []byte) bool {
+	var acc byte
+	for _, x := range b {
+		acc |= x
+	}
+	return acc == 0
+}
+
+func verifOptV(has bool, v int) *int {
+	if !has {
+		return nil
+	}
+	p := new(int)
+	*p = v
+	return p
+}
+
+// ---- (c) NewSignature / Normalise / IsNormalized
+
+func H_ecdsarec_signature() {
 	rB, sB := verifBytes(32), verifBytes(32)
-	_ = bytes.Equal
-	_ = sha256.New
-	f := k256.NewScalarField()
-	r, _ := f.FromBytes(rB)
-	s, _ := f.FromBytes(sB)
-	verifReach("probe")
-	sig, err := NewSignature(r, s, nil)
-	verifAssert("probe.x", (err == nil) == (sig != nil))
+	hasV, v := verifBool(), verifInt()
+	r, s := verifInScalar(rB), verifInScalar(sB)
+	verifReach("sig")
+	vp := verifOptV(hasV, v)
+	sig, err := NewSignature(r, s, vp)
+
+	accept := !verifAllZero(rB) && !verifAllZero(sB) && (!hasV || (v >= 0 && v <= 3))
+	verifAssert("sig.accepted_iff_r_s_nonzero_and_v_nil_or_0_to_3", (err == nil) == accept)
+	verifAssert("sig.signature_xor_error", (sig == nil) != (err == nil))
+	if err != nil {
+		verifAssert("sig.rejected_with_ErrFailed", errors.Is(err, signatures.ErrFailed))
+		return
+	}
+	if sig == nil {
+		return
+	}
+	verifReach("sig_accepted")
+	verifAssert("sig.components_kept", bytes.Equal(sig.R().Bytes(), rB) && bytes.Equal(sig.S().Bytes(), sB) &&
+		(sig.V() == nil) == !hasV && (sig.V() == nil || *sig.V() == v))
+
+	sL := verifLimbsBE(sB)
+	high := verifSpecLess4(verifHalfN(), sL) // s > (n-1)/2
+	verifAssert("sig.is_normalized_iff_s_at_most_half_n", sig.IsNormalized() == !high)
+
+	sig.Normalise()
+	wantS := sL
+	wantV := v
+	if high {
+		verifReach("sig_high")
+		wantS = verifSpecNegMod4(sL, verifN())
+		wantV = v ^ 1
+	} else {
+		verifReach("sig_low")
+	}
+	verifAssert("sig.normalise_s_becomes_n_minus_s_exactly_when_high", bytes.Equal(sig.S().Bytes(), verifBytesBE(wantS)))
+	verifAssert("sig.normalise_flips_bit0_of_v_exactly_when_high", (sig.V() == nil) == !hasV && (sig.V() == nil || *sig.V() == wantV))
+	verifAssert("sig.normalise_keeps_r", bytes.Equal(sig.R().Bytes(), rB))
+	verifAssert("sig.normalise_v_stays_in_range", sig.V() == nil || (*sig.V() >= 0 && *sig.V() <= 3))
+	verifAssert("sig.normalised_after_normalise", sig.IsNormalized())
+	if hasV {
+		verifAssert("sig.normalise_does_not_write_callers_v", *vp == v)
+	}
+
+	sig.Normalise()
+	verifAssert("sig.normalise_idempotent", bytes.Equal(sig.S().Bytes(), verifBytesBE(wantS)) && bytes.Equal(sig.R().Bytes(), rB) &&
+		(sig.V() == nil) == !hasV && (sig.V() == nil || *sig.V() == wantV) && sig.IsNormalized())
+}
+
+// ---- (a) RecoverPublicKey
+
+// verifNonceR: r as a signer obtains it: the abscissa of k*G reduced mod n. Under the interpreter
+// this is an arbitrary scalar (AffineX is uninterpreted); natively it guarantees that x = r is the
+// abscissa of a curve point, so that counterexamples replay meaningfully.
+func verifNonceR(kB []byte) *k256.Scalar {
+	k := verifInScalar(kB)
+	x, err := k256.NewCurve().ScalarBaseMul(k).AffineX()
+	verifAssume(err == nil) // k != 0
+	r, err := k256.NewScalarField().FromWideBytes(x.Bytes())
+	if err != nil {
+		panic(err)
+	}
+	return r
+}
+
+// verifRecoverSpec: the specification of RecoverPublicKey for a signature with recovery id v,
+// computed with the library's own curve routines: Q = r^-1 (s R - z G), R = the point with
+// abscissa r (+ n if bit 1 of v) and y parity bit 0 of v, z = SHA-256(message) mod n.
+// ok = false: no such R, or Q is the identity.
+func verifRecoverSpec(r, s *k256.Scalar, v int, msg []byte) (q *k256.Point, ok bool) {
+	curve, bf, sf := k256.NewCurve(), k256.NewBaseField(), k256.NewScalarField()
+	x, err := bf.FromWideBytes(r.Bytes())
+	if err != nil {
+		panic(err)
+	}
+	if v&2 != 0 {
+		nB, err := bf.FromWideBytes(verifBytesBE(verifN()))
+		if err != nil {
+			panic(err)
+		}
+		x = x.Add(nB)
+	}
+	bigR, err := curve.FromAffineX(x, v&1 != 0)
+	if err != nil {
+		return nil, false
+	}
+	d := sha256.Sum256(msg)
+	z, err := sf.FromWideBytes(d[:])
+	if err != nil {
+		panic(err)
+	}
+	rInv, err := r.TryInv()
+	if err != nil {
+		return nil, false
+	}
+	q = bigR.ScalarMul(s).Sub(curve.ScalarBaseMul(z)).ScalarMul(rInv)
+	if q.IsZero() {
+		return nil, false
+	}
+	return q, true
+}
+
+func H_ecdsarec_recover() {
+	kB, sB := verifBytes(32), verifBytes(32)
+	msg := verifBytes(3)
+	hasV, v := verifBool(), verifInt()
+	verifAssume(v >= 0 && v <= 3)
+	r, s := verifNonceR(kB), verifInScalar(sB)
+	msgCopy := append([]byte{}, msg...)
+	sig, err := NewSignature(r, s, verifOptV(hasV, v))
+	if err != nil {
+		return // r or s zero: harness H_ecdsarec_signature
+	}
+	suite := verifSuite()
+	// exploration order only: the recovery ids 0 and 1 first (natively, x = r is the abscissa of a
+	// point by construction of r, x = r + n mostly is not; the engine keeps the first counterexample)
+	if v&2 == 0 {
+		verifReach("rec")
+	} else {
+		verifReach("rec_v_bit1")
+	}
+	pk, err := RecoverPublicKey(suite, sig, msg)
+	verifAssert("rec.key_xor_error", (pk == nil) != (err == nil))
+	verifAssert("rec.message_not_modified", bytes.Equal(msg, msgCopy))
+	verifAssert("rec.signature_not_modified", sig.r == r && sig.s == s && (sig.v == nil) == !hasV && (sig.v == nil || *sig.v == v))
+	if !hasV {
+		verifReach("rec_no_v")
+		verifAssert("rec.no_recovery_id_is_invalid_argument", err != nil && errors.Is(err, signatures.ErrInvalidArgument))
+		return
+	}
+	want, ok := verifRecoverSpec(r, s, v, msg)
+	verifAssert("rec.fails_iff_no_point_R_for_these_v_bits_or_Q_is_identity", (err == nil) == ok)
+	if ok && err == nil && pk != nil {
+		verifReach("rec_ok")
+		verifAssert("rec.Q_is_rinv_times_sR_minus_zG_with_R_from_bits_of_v", pk.Value().Equal(want))
+	}
+	if !ok {
+		verifReach("rec_fail")
+	}
+}
+
+// H_ecdsarec_recover_nil_args: nil suite / nil signature are refused.
+func H_ecdsarec_recover_nil_args() {
+	sB := verifBytes(32)
+	which := verifBool()
+	s := verifInScalar(sB)
+	v := 0
+	sig, err := NewSignature(s, s, &v)
+	if err != nil {
+		return
+	}
+	verifReach("rec_nil")
+	var pk *verifPkT
+	if which {
+		pk, err = RecoverPublicKey[*k256.Point, *k256.BaseFieldElement, *k256.Scalar](nil, sig, nil)
+	} else {
+		pk, err = RecoverPublicKey(verifSuite(), (*verifSigT)(nil), nil)
+	}
+	verifAssert("rec.nil_argument_refused", pk == nil && err != nil && errors.Is(err, signatures.ErrInvalidArgument))
+}
+
+// ---- (b) Verifier.Verify
+
+// verifNativeCase (native twin only): a REAL situation with the requested oracle answers: a
+// signature by a fixed key on msg, made high-s / low-s as requested; recovery id correct (wantEq) or
+// with bit 0 flipped (recovers another key); verified against msg (wantOK) or against a different
+// message. "recovered key matches but signature invalid" does not exist natively.
+func verifNativeCase(msg []byte, hasV, high, wantEq, wantOK bool) (*verifSigT, *verifPkT, []byte) {
+	curve := k256.NewCurve()
+	nsuite := verifSuite()
+	d := k256.NewScalarField().FromUint64(0x1D2C3B4A59687)
+	pk, err := NewPublicKey(curve.ScalarBaseMul(d))
+	if err != nil {
+		panic(err)
+	}
+	sk, err := NewPrivateKey(d, pk)
+	if err != nil {
+		panic(err)
+	}
+	signer, err := NewSigner(nsuite, sk, crand.Reader)
+	if err != nil {
+		panic(err)
+	}
+	sig, err := signer.Sign(msg)
+	if err != nil {
+		panic(err)
+	}
+	rr, ss, vv := sig.r, sig.s, *sig.v
+	if sig.IsNormalized() == high {
+		ss, vv = ss.Neg(), vv^1
+	}
+	vmsg := append([]byte{}, msg...)
+	switch {
+	case hasV && wantEq && !wantOK:
+		verifSkipReplay("a signature whose recovered key matches verifies: no native situation with a matching key and a failing crypto/ecdsa.Verify")
+	case hasV && !wantEq && wantOK:
+		vv ^= 1
+	case !wantOK:
+		vmsg[0] ^= 1
+	}
+	out, err := NewSignature(rr, ss, verifOptV(hasV, vv))
+	if err != nil {
+		panic(err)
+	}
+	return out, pk, vmsg
+}
+
+func H_ecdsarec_verify() {
+	rB, sB, dB := verifBytes(32), verifBytes(32), verifBytes(32)
+	msg := verifBytes(3)
+	hasV, v := verifBool(), verifInt()
+	nonMall, wantEq, wantOK, wantHigh := verifBool(), verifBool(), verifBool(), verifBool()
+	verifAssume(v >= 0 && v <= 3)
+	// exploration order only (the engine keeps the first counterexample of an obligation and takes
+	// the true side of a branch first): the situations that exist natively first, "recovered key
+	// matches but crypto/ecdsa.Verify fails" last
+	noV, noEq := !hasV, !wantEq
+	if noV {
+		verifReach("ver_no_recovery_id")
+	} else if wantOK {
+		verifReach("ver_recovery_id")
+	} else if noEq {
+		verifReach("ver_recovery_id_invalid_signature")
+	} else {
+		verifReach("ver_no_native_situation")
+	}
+
+	var sig *verifSigT
+	var pk *verifPkT
+	if verifNative() {
+		sig, pk, msg = verifNativeCase(msg, hasV, wantHigh, wantEq, wantOK)
+	} else {
+		verifEqForced, verifEqAnswer = true, wantEq
+		verifOkForced, verifOkAnswer = true, wantOK
+		verifAssume(wantHigh == verifSpecLess4(verifHalfN(), verifLimbsBE(sB)))
+		var err error
+		sig, err = NewSignature(verifInScalar(rB), verifInScalar(sB), verifOptV(hasV, v))
+		if err != nil {
+			return
+		}
+		pk, err = NewPublicKey(k256.NewCurve().ScalarBaseMul(verifInScalar(dB)))
+		if err != nil {
+			return
+		}
+	}
+	suite := verifSuite()
+	vf, err := NewVerifier(suite)
+	if err != nil {
+		panic(err)
+	}
+	if nonMall {
+		if err := VerifyNonMalleably(vf); err != nil {
+			panic(err)
+		}
+	}
+	verifReach("ver")
+	got := vf.Verify(sig, pk, msg)
+
+	// specification, from the library's own routines (oracles under the interpreter, real natively)
+	high := bytes.Compare(sig.S().Bytes(), verifBytesBE(verifHalfN())) > 0
+	if nonMall && high {
+		verifReach("ver_malleable")
+		verifAssert("ver.non_malleable_verifier_rejects_high_s", got != nil)
+		verifAssert("ver.high_s_rejected_as_verification_failure", got == nil || errors.Is(got, signatures.ErrVerificationFailed))
+		// "before anything else": nothing was computed (ghost: no contract other than the scalar ones ran)
+		verifAssertGhost("ver.high_s_rejected_before_any_curve_operation", len(verifPoints) <= 1 && len(verifNvs) == 0 && len(verifXs) == 0)
+		return
+	}
+	keyOK := true
+	if hasV {
+		rec, rerr := RecoverPublicKey(suite, sig, msg)
+		keyOK = rerr == nil && rec.Equal(pk)
+	}
+	pkE, perr := pk.ToElliptic()
+	if perr != nil || pkE == nil {
+		panic("harness: public key does not convert")
+	}
+	bigR, bigS := sig.ToElliptic()
+	d := sha256.Sum256(msg)
+	sigOK := nativeEcdsa.Verify(pkE, d[:], bigR, bigS)
+
+	verifAssert("ver.nil_iff_recovered_key_matches_when_v_present_and_ecdsa_verifies", (got == nil) == (keyOK && sigOK))
+	if got != nil {
+		verifReach("ver_rejected")
+		if hasV && !keyOK {
+			verifReach("ver_key_mismatch")
+		}
+	} else {
+		verifReach("ver_accepted")
+	}
+	if hasV && !keyOK {
+		verifAssertGhost("ver.key_mismatch_rejected_without_consulting_ecdsa_verify", len(verifNvs) == 1)
+	} else {
+		verifAssertGhost("ver.ecdsa_verify_consulted_once_with_pk_digest_r_s", len(verifNvs) == 2 &&
+			verifNvs[0].x == verifNvs[1].x && verifNvs[0].y == verifNvs[1].y && verifNvs[0].r == verifNvs[1].r &&
+			verifNvs[0].s == verifNvs[1].s && verifNvs[0].digest == verifNvs[1].digest && verifNvs[0].nilCurve)
+	}
+}
+
+// H_ecdsarec_verify_nil_args: nil signature / nil public key are refused.
+func H_ecdsarec_verify_nil_args() {
+	sB := verifBytes(32)
+	which := verifBool()
+	s := verifInScalar(sB)
+	sig, err := NewSignature(s, s, nil)
+	if err != nil {
+		return
+	}
+	pk, err := NewPublicKey(k256.NewCurve().ScalarBaseMul(s))
+	if err != nil {
+		return
+	}
+	vf, err := NewVerifier(verifSuite())
+	if err != nil {
+		panic(err)
+	}
+	verifReach("ver_nil")
+	if which {
+		err = vf.Verify(nil, pk, nil)
+	} else {
+		err = vf.Verify(sig, nil, nil)
+	}
+	verifAssert("ver.nil_argument_refused", err != nil && errors.Is(err, signatures.ErrInvalidArgument))
+}
+
+// ---- controls (wrong claims, stated on results; each must be VIOLATED and confirmed natively)
+
+// wrong: every recovery id is accepted.
+func H_ecdsarec_signature_v_MUSTFAIL() {
+	sB := verifBytes(32)
+	v := verifInt()
+	s := verifInScalar(sB)
+	verifAssume(!verifAllZero(sB))
+	verifReach("sig_v_mustfail")
+	_, err := NewSignature(s, s, &v)
+	verifAssert("sig.wrong_any_v_accepted", err == nil)
+}
+
+// wrong: Normalise never changes s.
+func H_ecdsarec_normalise_MUSTFAIL() {
+	sB := verifBytes(32)
+	s := verifInScalar(sB)
+	sig, err := NewSignature(s, s, nil)
+	if err != nil {
+		return
+	}
+	verifReach("normalise_mustfail")
+	sig.Normalise()
+	verifAssert("sig.wrong_normalise_keeps_s", bytes.Equal(sig.S().Bytes(), sB))
+}
+
+// wrong: bit 0 of the recovery id does not matter.
+func H_ecdsarec_recover_parity_MUSTFAIL() {
+	kB, sB := verifBytes(32), verifBytes(32)
+	msg := verifBytes(3)
+	r, s := verifNonceR(kB), verifInScalar(sB)
+	v0, v1 := 0, 1
+	sig0, err0 := NewSignature(r, s, &v0)
+	sig1, err1 := NewSignature(r, s, &v1)
+	if err0 != nil || err1 != nil {
+		return
+	}
+	suite := verifSuite()
+	verifReach("recover_parity_mustfail")
+	pk0, e0 := RecoverPublicKey(suite, sig0, msg)
+	pk1, e1 := RecoverPublicKey(suite, sig1, msg)
+	verifAssert("rec.wrong_parity_bit_irrelevant", e0 != nil || e1 != nil || pk0.Equal(pk1))
 }
